@@ -23,7 +23,47 @@ def correspondence(ctx):
             return G.BTC + [G.FORK[i % 6]]
         return [G.VERS[i % 8], G.VERS[(i * 7 + 3) % 8]]
     S.run(ctx, cases, versions_of, project)
+    field_lengths(ctx)
     blackbox(ctx)
+
+
+LENS = [0, 1, 75, 76, 252, 253, 520, 521, 9999, 10000, 10001, 20000, 32767, 32768, 32769, 65535, 65536, 100000]
+
+
+def field_lengths(ctx):
+    """the three miner-chosen fields at every length class up to 100 KB (consensus size limits do not bind a parser): a block
+    whose second transaction carries a scriptSig / scriptPubKey / witness item of exactly that length, arbitrary bytes, must parse
+    (no panic, no error) and give exactly the model's dump — in-process through the real read_block"""
+    r = ctx.sub_rnd("c14-lens")
+    reqs, meta = [], []
+    lens = LENS if ctx.thorough() else [l for l in LENS if l not in (1, 75, 252, 520, 9999, 32767)]
+    for field in ("scriptsig", "scriptpubkey", "witness-item", "witness-items"):
+        for ln in lens:
+            for coin in (["bitcoin", "litecoin"] if ln in (10001, 65536, 100000) or ctx.thorough() else [["bitcoin", "dogecoin", "testnet3", "namecoin"][(ln + len(field)) % 4]]):
+                data = GC.rb(r, ln)
+                sig, spk, wit = b"\x01\x01", b"\x51", None
+                if field == "scriptsig":
+                    sig = data
+                elif field == "scriptpubkey":
+                    spk = data
+                elif field == "witness-item":
+                    wit = (1, 1, [[data]])
+                else:
+                    wit = (1, 1, [[b"", data, GC.rb(r, 3), data[:ln // 2]]])
+                cb = K.Tx([(b"\0" * 32, 0xffffffff, b"\x01\x01", 0xffffffff)], [(1, b"\x51")])
+                t = K.Tx([(GC.rb(r, 32), 0, sig, 5)], [(7, spk), (8, b"\x6a\x01\x41")], segwit=wit)
+                raw = K.Block([cb, t], version=1 if coin in ("bitcoin", "testnet3", "litecoin") else 2).enc()
+                reqs.append("%s %d %s" % (coin, len(raw), raw.hex()))
+                meta.append((field, ln, coin))
+    impl = ctx.hook("block", reqs)
+    model = ctx.model("block", reqs)
+    for (field, ln, coin), q, a, b in zip(meta, reqs, impl, model):
+        ctx.mark(("len", field, ln, coin), True)
+        ctx.families["field-length:" + field] += 1
+        if a != b or not a.startswith("ok "):
+            k = next((i for i, (x, y) in enumerate(zip(a.split(), b.split())) if x != y), 0)
+            ctx.disagree("field-length:%s-%d" % (field, ln), "block %s (second tx: %s of %d bytes) %s…" % (coin, field, ln, q[:120]), " ".join(a.split()[max(0, k - 1):k + 2])[:200], " ".join(b.split()[max(0, k - 1):k + 2])[:200], True,
+                         {"full_request": q, "cmd": "block", "observable": "read_block completes with the model's dump"})
 
 
 CALLBACKS = ["csvdump", "unspentcsvdump", "balances", "simplestats", "opreturn"]
@@ -81,11 +121,19 @@ def blackbox(ctx):
 
 def replay(ctx, rep, corpus=None):
     d = rep.get("failing_input", rep)
-    if d.get("scenario"):
+    if d.get("cmd") == "block":
+        q = d["full_request"]
+        a, b = ctx.hook("block", [q])[0], ctx.model("block", [q])[0]
+        ctx.mark(q, True)
+        if a != b or not a.startswith("ok "):
+            ctx.disagree("replay", "block " + q[:200], a[:200], b[:200], True, {"full_request": q, "cmd": "block"})
+    elif d.get("scenario"):
         bb.replay_scenario(ctx, rep, comparators(d["scenario"].get("callback", "csvdump")))
     else:
         S.replay_one(ctx, rep, project)
 
 
 def shrink(ctx, d):
+    if d.get("cmd") == "block":
+        return d
     return S.shrink_script(ctx, d, project)
